@@ -53,6 +53,7 @@ __all__ = [
 
 import html.parser
 import io
+import codecs
 import re
 import sys
 import urllib.error
@@ -201,11 +202,11 @@ def _getTextTypeByMediaType(media_type, log=None):
 
     media_type = media_type.strip().lower()
 
-    if media_type in xml_application_types or re.match(
+    if media_type in xml_application_types or re.fullmatch(
         xml_application_types[0], media_type, re.I | re.S | re.X
     ):
         return _XML_APPLICATION_TYPE
-    elif media_type in xml_text_types or re.match(
+    elif media_type in xml_text_types or re.fullmatch(
         xml_text_types[0], media_type, re.I | re.S | re.X
     ):
         return _XML_TEXT_TYPE
@@ -223,7 +224,11 @@ def _getTextType(text, log=None):
     """Check if given text is XML (**naive test!**)
     used if no content-type given
     """
-    if text[:30].find('<?xml version=') != -1:
+    # the declaration as detectXMLEncoding reads it (str or bytes)
+    start = text[:30]
+    if isinstance(start, bytes):
+        start = start.decode('latin-1')
+    if re.search(r'<\?xml\s', start):
         return _XML_APPLICATION_TYPE
     else:
         return _OTHER_TYPE
@@ -315,7 +320,8 @@ def getMetaInfo(text, log=None):
         m['content-type'] = p.content_type
 
         media_type = m.get_content_type()
-        encoding = m.get_param('charset')  # defaults to None
+        # defaults to None, same reading as for the HTTP header (RFC 2231)
+        encoding = m.get_content_charset()
         if encoding:
             encoding = encoding.lower()
         if log:
@@ -402,8 +408,8 @@ def detectXMLEncoding(fp, log=None, includeDefault=True):  # noqa: C901
 
     # set up regular expression
     xmlDeclPattern = r"""
-    ^<\?xml             # w/o BOM, xmldecl starts with <?xml at the first byte
-    [^?]+?              # some chars (version info), matched minimal
+    ^<\?xml\s          # w/o BOM, xmldecl starts with <?xml at the first byte
+    (?:[^?]*?\s)?       # some chars (version info), matched minimal
     encoding\s*=\s*     # encoding attribute begins
     ["']                # attribute start delimiter
     (?P<encstr>         # what's matched in the brackets will be named encstr
@@ -485,6 +491,24 @@ def tryEncodings(text, log=None):  # noqa: C901
                 return e
 
     return encoding
+
+
+def _differ(enc1, enc2):
+    """two labels differ if they do not name the same encoding
+    (``utf_16_le``, found by its BOM, is ``utf-16le``)"""
+    try:
+        name1, name2 = codecs.lookup(enc1).name, codecs.lookup(enc2).name
+    except LookupError:
+        return enc1 != enc2
+    for generic in ('utf-16', 'utf-32'):
+        # the label without byte order is the one a document with BOM has
+        if generic in (name1, name2) and {name1, name2} <= {
+            generic,
+            generic + '-le',
+            generic + '-be',
+        }:
+            return False
+    return name1 != name2
 
 
 def getEncodingInfo(response=None, text='', log=None, url=None):  # noqa: C901
@@ -653,7 +677,7 @@ def getEncodingInfo(response=None, text='', log=None, url=None):  # noqa: C901
     if (
         encinfo.http_encoding
         and encinfo.xml_encoding
-        and encinfo.http_encoding != encinfo.xml_encoding
+        and _differ(encinfo.http_encoding, encinfo.xml_encoding)
     ):
         encinfo.mismatch = True
         log.warning(
@@ -664,7 +688,7 @@ def getEncodingInfo(response=None, text='', log=None, url=None):  # noqa: C901
     if (
         encinfo.http_encoding
         and encinfo.meta_encoding
-        and encinfo.http_encoding != encinfo.meta_encoding
+        and _differ(encinfo.http_encoding, encinfo.meta_encoding)
     ):
         encinfo.mismatch = True
         log.warning(
@@ -675,7 +699,7 @@ def getEncodingInfo(response=None, text='', log=None, url=None):  # noqa: C901
     if (
         encinfo.xml_encoding
         and encinfo.meta_encoding
-        and encinfo.xml_encoding != encinfo.meta_encoding
+        and _differ(encinfo.xml_encoding, encinfo.meta_encoding)
     ):
         encinfo.mismatch = True
         log.warning(
